@@ -146,9 +146,9 @@ def extra_harness(E, ctx, aux):
 def jobs(tier):
     from vf.props.C09 import EXTRA_SOURCES
 
-    def gj(name, N, entry=None, max_edges=None, budget=900, required=True):
-        return Job(name, lambda: s1_space(N, entry=entry, max_edges=max_edges), graph_harness,
-                   bounds={"space": "S1", "blocks": N, "entry": "any" if entry is None else f"b{entry}", "max_edges": max_edges,
+    def gj(name, N, entry=None, max_edges=None, budget=900, required=True, require_edges=None):
+        return Job(name, lambda: s1_space(N, entry=entry, max_edges=max_edges, require_edges=require_edges), graph_harness,
+                   bounds={"space": "S1", "blocks": N, "entry": "any" if entry is None else f"b{entry}", "max_edges": max_edges, "required_edges": require_edges,
                            "schedules": "every single-event perturbation + global reversal"}, budget_s=budget, required=required)
 
     def pj(name, factory, depth, kind, bounds, budget=900, required=True):
@@ -164,6 +164,8 @@ def jobs(tier):
     js.append(Job("hand-written-functions", xspace, extra_harness, bounds={"bytecode_functions": len(EXTRA_SOURCES), "multi_exit_sources_both_front_ends": len(MORE_SOURCES)}, budget_s=600, path_timeout_s=120))
     if tier == "thorough":
         js.append(gj("S1-N5-entry-b0-le6-edges", 5, 0, max_edges=6, budget=2400))
+        js.append(gj("F6-two-entry-arms-le7-edges", 6, 0, max_edges=7, budget=1200, required=False,
+                     require_edges=[(0, 1), (0, 2), (1, 3), (2, 4)]))
         js.append(pj("source-S2-expr-d1", lambda ch: s2.ExprGen(ch, 1, rich_leaves=True), 2, "source", {"space": "S2-expr", "depth<=": 1}, budget=1200))
         js.append(pj("bytecode-S2-ctl-c1", lambda ch: s2.CtlGen(ch, 1, 2, 1), 3, "bytecode", {"space": "compiled S2-ctl", "compounds<=": 1}, budget=1200))
     return js
